@@ -13,7 +13,7 @@
 From Irismod Require Import Service.Check.
 From Irismod Require Import Service.Model Service.Proofs Service.ProofsHist Service.ProofsEscrow
   Service.ProofsSched Service.ProofsBatch Service.ProofsLiab Service.ProofsTally Service.ProofsLive Service.ProofsModule Service.ProofsFresh
-  Service.ProofsCallback Service.ProofsSchedule Service.ProofsModuleHist Service.ProofsCheck.
+  Service.ProofsCallback Service.ProofsSchedule Service.ProofsModuleHist Service.ProofsCheck Service.ProofsTrack Service.ProofsBal Service.ProofsSlash.
 
 (** Over EVERY history (any list of steps: messages of any kind and content, valid or not, block
     ends with expiry, slashing, refunds and new batches, rate changes, transfers, module
@@ -232,14 +232,36 @@ Theorem model_passes_C07_clause_5 :
 Proof. exact model_passes_C07_clause_5_lemma. Qed.
 Print Assumptions model_passes_C07_clause_5.
 
-(** [model_passes_check], PARTIAL, for [check_case_C07] itself.  [model_case univ c h0 t0 l0 steps]
+(** clause 4 — "fees are conserved across escrow and consumers", per account: over an end-block
+    (and over a call message) every actor's balance, in every denom, moves by exactly the fees of
+    its requests that expired in the step minus the fees of its requests created in the step —
+    the checker's sums over the observed request lists.  Along the model's own trace of any history
+    (no module-served service, escrows empty at the start, distinct hashes, no end-block with a
+    negative time increment; the observed universe is a product accounts x denoms).  Model side
+    ([end_block_bal], Service/ProofsBal.v): two potentials are invariant under the two kinds of
+    handler — balance + fees still owed to the account by requests expiring at this height
+    (refund: REQ escrow -> consumer, which cannot fail because the escrow equation holds), and
+    balance + fees charged to the account for requests created at this height (all-or-nothing
+    deduction of exactly the recorded fees) — and the consumer of a context never changes. *)
+Theorem model_passes_C07_clause_4 :
+  forall c steps h0 t0 l0 univ,
+    c_msvc c < 0 -> clean l0 -> NoDup (create_txhs steps) -> Forall good_step steps ->
+    (forall a d, (exists d', In (a, d') univ) -> In d (denoms c) -> In (a, d) univ) ->
+    forall pre st post, steps = pre ++ st :: post ->
+    forall pc pn pb,
+      let s := run c (init h0 t0 l0) pre in
+      holds_C07 c (obs_of univ pc pn pb s) st (obs_step univ c s st) <> 4.
+Proof. exact model_passes_C07_clause_4_lemma. Qed.
+Print Assumptions model_passes_C07_clause_4.
+
+(** [model_passes_check] for [check_case_C07], the earlier PARTIAL form (clauses 1-5; the complete
+    one is [model_passes_check_C07] below).  [model_case univ c h0 t0 l0 steps]
     is the case the driver would print for the MODEL: its own observation after every step of ANY
     history.  Whatever the checker ([check_case_C07] = correspondence, first violating step, clause)
-    answers on it, there is no divergence (first component -1) and the clause is never 1, 2, 3 or 5
-    (so it is 0, 4 or 6): every boolean entry of those clauses of
-    [holds_C07] is re-proved over the observation lists from the invariants.  NOT covered: clause 4
-    (per-account balance movement over an end-block / call) and clause 6 (slashing iterated per
-    expired request); the correspondence component is [model_corresponds_to_itself] below.  Hypotheses: no module-served service,
+    answers on it, there is no divergence (first component -1) and the clause is never 1, 2, 3, 4 or 5
+    (so it is 0 or 6): every boolean entry of those clauses of
+    [holds_C07] is re-proved over the observation lists from the invariants.  NOT covered: clause 6
+    (slashing iterated per expired request); the correspondence component is [model_corresponds_to_itself] below.  Hypotheses: no module-served service,
     a non-negative tax rate, escrows empty at the start, distinct hashes, no end-block with a
     negative time increment, the observed universe [univ] contains the escrow accounts in the
     configured denoms and the escrow / tax accounts in the fee denoms of the stored requests
@@ -251,10 +273,11 @@ Theorem model_passes_clauses_C07 :
     In (DEP, BASE) univ -> (forall d, In d (denoms c) -> In (REQ, d) univ) ->
     (forall pre st post, steps = pre ++ st :: post -> forall rid q, get rid (reqs (run c (init h0 t0 l0) pre)) = Some q ->
        In (TAX, q_fd q) univ /\ In (REQ, q_fd q) univ) ->
+    (forall a d, (exists d', In (a, d') univ) -> In d (denoms c) -> In (a, d) univ) ->
     ledger_of (obs_of univ 0 None [] (init h0 t0 l0)) = l0 ->
     forall corr p k, check_case_C07 (model_case univ c h0 t0 l0 steps) = (corr, p, k) ->
-      corr = -1 /\ k <> 1 /\ k <> 2 /\ k <> 3 /\ k <> 5.
-Proof. exact model_passes_clauses_C07_corr_lemma. Qed.
+      corr = -1 /\ k <> 1 /\ k <> 2 /\ k <> 3 /\ k <> 4 /\ k <> 5.
+Proof. exact model_passes_clauses_C07_4_lemma. Qed.
 Print Assumptions model_passes_clauses_C07.
 
 (** The correspondence component, for BOTH properties, over EVERY history with distinct hashes
@@ -273,6 +296,32 @@ Theorem model_corresponds_to_itself :
     /\ (forall corr p k, check_case_C08 cs = (corr, p, k) -> corr = -1).
 Proof. exact model_corresponds_to_itself_lemma. Qed.
 Print Assumptions model_corresponds_to_itself.
+
+(** [model_passes_check] for C07, COMPLETE: on the case the driver would print for the MODEL —
+    its own observation after every step of any history — the checker answers (-1, -1, 0): no
+    divergence, no step violating any of the six clauses of [holds_C07].  Clause 6 (new in
+    Service/ProofsSlash.v): over an end-block every binding's deposit is the old one slashed
+    floor(deposit * fraction) once per request of its (service, provider) that expired in the step
+    ([end_block_slash]: "deposit after the remaining slashes" is an invariant of the expiry handler;
+    needs deposits >= 0, [reach_DN], and the deposit escrow equation, so that no slash can fail),
+    the tax account gains in the base denom exactly what the deposit escrow loses, and nothing
+    else touches it ([end_block_TD]).  Hypotheses: no module-served service; tax rate >= 0 and
+    0 <= slash fraction <= 1; escrows empty at the start; distinct hashes; no end-block with a
+    negative time increment; the observed universe is a product accounts x denoms containing the
+    three module accounts in the base denom, the request escrow in the configured denoms and the
+    escrow / tax accounts in the fee denoms of the stored requests; the initial ledger is the one
+    the checker rebuilds from the first observation. *)
+Theorem model_passes_check_C07 :
+  forall c steps h0 t0 l0 univ,
+    c_msvc c < 0 -> 0 <= c_tax c -> 0 <= c_slash c <= P18 -> clean l0 -> NoDup (create_txhs steps) -> Forall good_step steps ->
+    In (DEP, BASE) univ -> In (TAX, BASE) univ -> (forall d, In d (denoms c) -> In (REQ, d) univ) ->
+    (forall pre st post, steps = pre ++ st :: post -> forall rid q, get rid (reqs (run c (init h0 t0 l0) pre)) = Some q ->
+       In (TAX, q_fd q) univ /\ In (REQ, q_fd q) univ) ->
+    (forall a d, (exists d', In (a, d') univ) -> In d (denoms c) -> In (a, d) univ) ->
+    ledger_of (obs_of univ 0 None [] (init h0 t0 l0)) = l0 ->
+    check_case_C07 (model_case univ c h0 t0 l0 steps) = (-1, -1, 0).
+Proof. exact model_passes_check_C07_lemma. Qed.
+Print Assumptions model_passes_check_C07.
 
 (** ** the hypotheses are satisfiable, the conclusions are not vacuous: a history with a
     time-discounted binding (price 100, half price until t = 2000), a second flat binding
@@ -369,3 +418,13 @@ Proof.
   split; [repeat constructor; vm_compute; discriminate|].
   split; [apply fdsb_ok; vm_compute; reflexivity|]. split; vm_compute; reflexivity.
 Qed.
+
+Example c07_universe_is_a_product :
+  forall a d, (exists d', In (a, d') ex_univ) -> In d (denoms ex_cfg) -> In (a, d) ex_univ.
+Proof.
+  intros a d (d' & Hin) Hd. vm_compute in Hd. vm_compute in Hin.
+  repeat (destruct Hin as [Hin|Hin]; [injection Hin as <- <-; destruct Hd as [<-|[<-|[]]]; vm_compute; tauto|]). contradiction.
+Qed.
+
+Example c07_slash_fraction_in_range : 0 <= c_slash ex_cfg <= P18 /\ In (TAX, BASE) ex_univ.
+Proof. split; [vm_compute; split; discriminate|vm_compute; tauto]. Qed.
